@@ -177,6 +177,8 @@ class Prop(BaseProp):
         spikes = [t for t in case["trains"][0] if 0 <= t <= e]
         mk = {"float": lambda: e, "int": lambda: int(e), "np.float64": lambda: np.float64(e), "np.int64": lambda: np.int64(e),
               "np.float32": lambda: np.float32(e), "0d-array": lambda: np.array(e)}
+        if ek == "np.float32" and float(np.float32(e)) != e:
+            ek = "np.float64"            # the value must survive the chosen type exactly (2**40 + 65 does not fit binary32)
         ctx.word(("edges", ek), True)
         if ek in mk:
             ctx.count("scalar_edge")
